@@ -61,3 +61,9 @@ package mp
 //@ modifies nothing
 //@ requires iter != nil
 //@ at call extractFromSlice assert [next-counter-is-per-path] arg(curSegment) == result_of(curSegment.String, 0) && arg(iter) == iter0
+
+//@ func (e *ErrSegmentNotFound) Error
+//@ props C13 C15
+//@ nilsafe
+//@ requires e != nil
+//@ modifies nothing
